@@ -24,6 +24,7 @@ import (
 var universeC07 = []string{
 	"null", "true", "false", "0", "-0", "1", "-1", "1.5", "1e15", `""`, `"a"`, `"0"`, `"false"`, `"null"`,
 	"[]", "[0]", "[[]]", "[null]", "[1,2]", "{}", `{"a":null}`, `{"a":1}`, `{"a":[]}`, `{"a":{"b":1}}`,
+	`{"b":null}`, `{"b":false}`, `{"a":null,"b":1}`, `{"a":1,"b":null}`, `[2,1]`, `[{"a":null}]`, `[{"b":null}]`, `[1,[2]]`, `[1,[2,null]]`, `"1"`, `{"a":{"c":1}}`, `{"a":{"b":null}}`,
 }
 
 var binOpsC07 = []string{"||", "&&", "==", "!=", "<", "<=", ">", ">="}
@@ -70,6 +71,101 @@ func TestC07Exhaustive(t *testing.T) {
 	st.mu.Lock()
 	st.Exhaustive["C07.truth-tables"] = fmt.Sprintf("%d values x %d values x %d binary operators x 3 carriers, unary not, short-circuit with erroring right operand, filters over the universe: %d cases", len(universeC07), len(universeC07), len(binOpsC07), n)
 	st.mu.Unlock()
+}
+
+// nearValue returns a value structurally close to v (renamed key, null vs
+// missing member, reordered array, number off by one, number vs its string):
+// the pairs on which a sloppy equality is most likely to go wrong.
+func nearValue(t *rapid.T, v interface{}) interface{} {
+	switch x := v.(type) {
+	case map[string]interface{}:
+		out := map[string]interface{}{}
+		keys := ref.SortedKeys(x)
+		if len(keys) == 0 {
+			return map[string]interface{}{"a": nil}
+		}
+		pick := rapid.IntRange(0, len(keys)-1).Draw(t, "nvKey")
+		mode := rapid.IntRange(0, 3).Draw(t, "nvObjMode")
+		for i, k := range keys {
+			if i != pick {
+				out[k] = x[k]
+				continue
+			}
+			switch mode {
+			case 0: // rename the key
+				out[k+"_"] = x[k]
+			case 1: // member replaced by null under another name
+				out[k+"_"] = nil
+			case 2: // drop the member
+			default:
+				out[k] = nearValue(t, x[k])
+			}
+		}
+		return out
+	case []interface{}:
+		if len(x) == 0 {
+			return []interface{}{nil}
+		}
+		out := append([]interface{}{}, x...)
+		switch rapid.IntRange(0, 3).Draw(t, "nvArrMode") {
+		case 0:
+			out[0], out[len(out)-1] = out[len(out)-1], out[0]
+		case 1:
+			out = append(out, nil)
+		case 2:
+			out = out[:len(out)-1]
+		default:
+			i := rapid.IntRange(0, len(out)-1).Draw(t, "nvIdx")
+			out[i] = nearValue(t, out[i])
+		}
+		return out
+	case float64:
+		if rapid.Bool().Draw(t, "nvNumStr") {
+			return ref.FormatNumber(x)
+		}
+		return x + 1
+	case string:
+		if f, err := strconv.ParseFloat(x, 64); err == nil && rapid.Bool().Draw(t, "nvStrNum") {
+			return f
+		}
+		return x + " "
+	case bool:
+		return !x
+	case nil:
+		return false
+	}
+	return v
+}
+
+// TestC07Near: equality and ordering between a value found in the document and
+// a structurally close value, in every carrier.
+func TestC07Near(t *testing.T) {
+	rapid.Check(t, func(t *rapid.T) {
+		v := genValue(t, 1, docOpts{maxDepth: 4, maxWidth: 3})
+		w := nearValue(t, v)
+		if rapid.IntRange(0, 3).Draw(t, "twice") == 0 {
+			w = nearValue(t, w)
+		}
+		op := cmpOps[rapid.IntRange(0, len(cmpOps)-1).Draw(t, "op")]
+		if rapid.Bool().Draw(t, "swap") {
+			v, w = w, v
+		}
+		doc := map[string]interface{}{"a": v, "b": w, "l": []interface{}{map[string]interface{}{"a": v, "b": w}, map[string]interface{}{"a": w, "b": v}, map[string]interface{}{"a": v, "b": v}}}
+		var expr string
+		switch rapid.IntRange(0, 4).Draw(t, "carrier") {
+		case 0:
+			expr = ref.SpellLiteral(v) + " " + op + " " + ref.SpellLiteral(w)
+		case 1:
+			expr = "a " + op + " b"
+		case 2:
+			expr = "l[?a " + op + " b] | length(@)"
+		case 3:
+			expr = "!(a " + op + " b) || (b " + op + " " + ref.SpellLiteral(v) + ")"
+		default:
+			expr = "contains(`[1]`, `2`) || [a " + op + " b, b " + op + " a, a " + op + " a]"
+		}
+		run(t, Case{Property: "C07", Kind: "diff", Expr: expr, Doc: ref.Canon(doc), Extra: map[string]interface{}{"cell": "near"}})
+	})
 }
 
 // TestC07Random: random nestings of the boolean operators (also inside filters).
@@ -682,6 +778,39 @@ func TestC09Random(t *testing.T) {
 			lex = g.expr(doc, 0)
 		}
 		run(t, caseDiff("C09", renderRandom(t, lex), doc))
+	})
+}
+
+// TestC09Large: array functions on large arrays (up to 300 elements) with many
+// ties, number and string keys, multi-byte strings: stability of sort_by, first
+// extremal element of max_by/min_by, sort/max/min/sum/avg/reverse/join/map.
+func TestC09Large(t *testing.T) {
+	rapid.Check(t, func(t *rapid.T) {
+		n := rapid.IntRange(0, 300).Draw(t, "n")
+		if rapid.IntRange(0, 3).Draw(t, "small") == 0 {
+			n = rapid.IntRange(0, 16).Draw(t, "nSmall")
+		}
+		nk := rapid.IntRange(1, 6).Draw(t, "distinctKeys")
+		strs := []string{"b", "a", "é", "𝒳", "", "ab", "B", "z", "aa"}
+		objs := make([]interface{}, n)
+		nums := make([]interface{}, n)
+		ss := make([]interface{}, n)
+		for i := range objs {
+			k := rapid.IntRange(0, nk-1).Draw(t, "k")
+			objs[i] = map[string]interface{}{"n": float64(k), "s": strs[k%len(strs)], "i": float64(i), "neg": float64(-k), "f": float64(k) + 0.5}
+			nums[i] = float64(rapid.IntRange(-nk, nk).Draw(t, "num"))
+			ss[i] = strs[rapid.IntRange(0, len(strs)-1).Draw(t, "str")]
+		}
+		doc := map[string]interface{}{"o": objs, "n": nums, "s": ss}
+		exprs := []string{
+			"sort_by(o, &n)[*].i", "sort_by(o, &s)[*].i", "sort_by(o, &neg)[*].i", "sort_by(o, &to_string(n))[*].i", "sort_by(o, &f)[*].i",
+			"max_by(o, &n).i", "max_by(o, &s).i", "min_by(o, &n).i", "min_by(o, &s).i", "max_by(o, &neg).i", "min_by(o, &length(s)).i",
+			"sort(n)", "sort(s)", "max(n)", "min(n)", "max(s)", "min(s)", "sum(n)", "avg(n)", "reverse(o)[*].i", "reverse(s)", "join('|', s)", "map(&i, o)",
+			"length(o)", "o[*].s | sort(@)", "sort_by(o, &s) | reverse(@) | [0].i", "sort_by(sort_by(o, &s), &n)[*].i", "sort_by(o[?n > `0`], &s)[*].i", "o[::-1] | sort_by(@, &s)[*].i",
+			"contains(n, `0`)", "contains(s, 'é')", "to_array(n) | length(@)", "not_null(n)[0]", "n[?@ == `0`] | length(@)",
+		}
+		e := exprs[rapid.IntRange(0, len(exprs)-1).Draw(t, "expr")]
+		run(t, Case{Property: "C09", Kind: "diff", Expr: e, Doc: ref.Canon(doc)})
 	})
 }
 
